@@ -231,8 +231,41 @@ func newSchedReadException(w *World, la *lockAnalysis) *schedReadException {
 				before = true
 			}
 		})
+		// (i') the store is in the spawner itself and dominates the go statement (an inlined initialiser)
+		if s == e.spawner {
+			domAll := true
+			la.curFn = s
+			allInstrs(s, func(in ssa.Instruction) {
+				if st, ok := in.(*ssa.Store); ok {
+					if key, base, ok := la.rootField(st.Addr); ok && key == "PipelineJob.sched" && !la.fresh(base, nil) && !instrDominates(st, goInstr) {
+						domAll = false
+					}
+				}
+			})
+			if domAll {
+				continue
+			}
+		}
 		if before {
 			continue
+		}
+		// (ii') the storing function is itself called only by this goroutine, after the read (an inlined de-initialiser in the completion handler)
+		direct := len(callersOf(s)) > 0
+		for _, c1 := range callersOf(s) {
+			if c1 != e.closure {
+				direct = false
+			}
+		}
+		if direct {
+			after := true
+			allInstrs(e.closure, func(in ssa.Instruction) {
+				if c, ok := in.(*ssa.Call); ok && c.Call.StaticCallee() == s && !instrDominates(load, c) {
+					after = false
+				}
+			})
+			if after {
+				continue
+			}
 		}
 		// (ii) only reachable through the completion handler called from this closure after the read
 		okS := true
